@@ -157,6 +157,7 @@ def check(ctx, R):
     R.run("C15.p", lambda R, c: preds.rule(R, c, "C15.p", ["branch_is_deleted", "flags_check"]), ctx)
     R.run("C15.p", lambda R, c: preds.flag_table(R, c, "C15.p"), ctx)
     R.run("C15.g", rule_g, ctx)
+    R.run("C15.i", rule_hook, ctx)
     from . import shared
     R.run("C15.h", lambda R, c: shared.api_delegations(
         R, c, "C15.h", shared.GC_DELEGATIONS,
@@ -165,3 +166,41 @@ def check(ctx, R):
         "mark files the id under its own client with its own clock; mark_all hands an item to Item::gc (parent_gc = false) only when "
         "it is deleted"), ctx)
     return {}
+
+
+def rule_hook(R, ctx, rid="C15.i"):
+    """Resolving a logical reference answers None for a deleted collection, collected or not."""
+    Y = ctx.yrs
+    R.rule(rid, "R-GUARD Hook::get: the Some answer is built only where the resolved branch has no item (a root type) or "
+                "Item::is_deleted(branch.item) answered false — from the `true` edge of that test no Some is reachable, and with the "
+                "`item is None` and `is_deleted == false` edges removed no Some is reachable at all. A deleted nested collection "
+                "resolves while its block has not been rewritten by the collector, so without the test the answer depends on "
+                "whether GC ran")
+    fn = Y.fn("yrs::branch::Hook::get")
+    v = FnView(fn)
+    cfg = fn.cfg()
+    somes = [bb for bb, i, st in fn.stmts() if st["dst"] == 0 and isinstance(st["rv"], dict) and isinstance(st["rv"].get("agg"), dict)
+             and st["rv"]["agg"].get("variant") == "Some" and str(st["rv"]["agg"].get("adt", "")).endswith("option::Option")]
+    R.floor(rid, "Some answers in Hook::get", len(somes), 1)
+    lits = F.switch_literals(fn)
+    dl = [l for l in lits if isinstance(l.term, tuple) and term_has_call(l.term, "yrs::block::Item::is_deleted") and isinstance(l.polarity, bool)]
+    il = [l for l in lits if sshow(simp_deep(l.term), 8).endswith(".item") and l.polarity in ("None", "Some")]
+    tests = fn.calls_to("yrs::block::Item::is_deleted")
+    R.floor(rid, "is_deleted tests in Hook::get", len(tests), 1)
+    if not somes or not dl or not il:
+        R.ob(rid, fn, "deleted-test", False, "no test of Item::is_deleted over the resolved branch's item (%d deleted-edges, %d item-edges)" % (len(dl), len(il)))
+        return
+    arg = sshow(simp_deep(v.arg(tests[0], 0, 10)), 8)
+    R.ob(rid, fn, "tested-item", "BranchID::get_branch(" in arg and arg.endswith(".item"),
+         "the test reads %s" % arg, tests[0].loc())
+    bad = []
+    for l in dl:
+        if l.polarity is True:
+            for s in somes:
+                if s in cfg.reachable_from(l.to):
+                    bad.append("Some is reachable after is_deleted answered true")
+    allow = {(l.bb, l.to) for l in dl if l.polarity is False} | {(l.bb, l.to) for l in il if l.polarity == "None"}
+    for s in somes:
+        if cfg.reachable_without(s, allow):
+            bad.append("Some is reachable without passing `item is None` or `is_deleted == false`")
+    R.ob(rid, fn, "deleted-test", not bad, "Some only for a root type or a live item" if not bad else "; ".join(sorted(set(bad))))
